@@ -28,7 +28,8 @@ Inductive item :=
 | IRef (num : str)                  (* "RN  [num]" or "RN  [num]; xref." followed by RX/RA/RT/RL lines *)
        (xref : option str)
        (lines : list refline)
-| IField (k : fieldk) (v : str)     (* "AC  v" / "ID  v" / "NA  v" / "DE  v" *)
+| IField (k : fieldk) (pad : str) (v : str)
+                                    (* "AC" / "ID" / "NA" / "DE", blanks or tabs [pad] (possibly none), the value *)
 | ISkip (k : skipk) (v : str)       (* "BA" / "BS" / "BF" / "CO" followed by the text v (not shown by Record) *)
 | IXX                               (* an "XX" separator line *)
 | ICC (t : str) (ts : list str)     (* a run of comment lines "CC" ++ text (not shown by Record) *)
@@ -68,7 +69,7 @@ Definition print_item (eol : str) (it : item) : str :=
   match it with
   | IRef num xref lines =>
       ["R"; "N"; " "; " "; "["] ++ num ++ ["]"] ++ print_xref xref ++ eol ++ flat_map (print_refline eol) lines
-  | IField k v => [fst (field_tag k); snd (field_tag k); " "; " "] ++ v ++ eol
+  | IField k pad v => [fst (field_tag k); snd (field_tag k)] ++ pad ++ v ++ eol
   | ISkip k v => [fst (skip_tag k); snd (skip_tag k)] ++ v ++ eol
   | IXX => xx_line eol
   | ICC t ts => flat_map (fun x => ["C"; "C"] ++ x ++ eol) (t :: ts)
@@ -145,7 +146,7 @@ Definition add_ref (x : reference) (r : record) : record :=
 Definition apply_item (al : alpha) (r : record) (it : item) : record :=
   match it with
   | IRef num xref lines => add_ref (ref_of num xref lines) r
-  | IField k v => set_field k v r
+  | IField k _ v => set_field k v r
   | IMatrix _ _ syms rows =>
       match sym_indices al syms with
       | Some idx => set_data (build_matrix al idx (map pr_toks rows)) r
@@ -169,7 +170,7 @@ Fixpoint last_field (k : fieldk) (p : prec) : option str :=
       match last_field k t with
       | Some v => Some v
       | None => match it with
-                | IField k' v => if fieldk_eqb k k' then Some v else None
+                | IField k' _ v => if fieldk_eqb k k' then Some v else None
                 | _ => None
                 end
       end
@@ -270,7 +271,7 @@ Definition item_ok (al : alpha) (it : item) : bool :=
   | IDT d m y _ author =>
       num_ok 255 d && num_ok 255 m && num_ok 65535 y && no_nl author && utf8_valid author && no_dot author
   | IRef num xref lines => label_ok num && xref_ok xref && forallb refline_ok lines
-  | IField _ v => field_ok v
+  | IField _ pad v => forallb is_blank pad && field_ok v
   | ISkip _ v => no_nl v && utf8_valid v
   | IXX => true
   | IMatrix _ sep syms rows =>
